@@ -162,6 +162,7 @@ func main() {
 					if status == "FAIL" && os.Getenv("GOVC_DEBUG") != "" {
 						fmt.Println(truncate(ob.Result.Output, 3000))
 						os.WriteFile("/tmp/govc_fail_"+sanitizeIdent(ob.Name)+".smt2", []byte(ob.fx.scriptFor(ob)), 0o644)
+						os.WriteFile("/tmp/govc_fail_"+sanitizeIdent(ob.Name)+".full.smt2", []byte(ob.fx.scriptForMode(ob, false)), 0o644)
 					}
 				}
 			}
